@@ -106,6 +106,7 @@ def rule_tabs_off(ctx):
                  "first token of a line is unreachable or gets allow_tabs == false; add_char expands a tab that follows a blank")
     env = {"indent_with_tabs": {0}, "pp_indent_with_tabs": {-1, 0}}
     f = db.fn("output_text", file=OUT)
+    r.names(f, "pc", "allow_tabs")
     rd = ReachingDefs(f, db)
     fd = Folder(f, rd, env)
     calls = [n for n in db.calls_in(f, "output_to_column")]
@@ -149,6 +150,7 @@ def rule_tabs_off(ctx):
     r.require(lead >= 2, "only %d line-start tab decisions found in output_text" % lead)
     # add_char: tab after blank
     a = db.fn("add_char", file=OUT)
+    r.names(a, "ch")
     rda = ReachingDefs(a, db)
     fa = Folder(a, rda, env)
     tests = [b for b, blk in a.blocks.items() if blk.get("term") and expr_str(a, blk["term"].get("lc", blk["term"].get("c"))) == "indent_with_tabs == 0"]
@@ -170,6 +172,7 @@ def rule_blank_buffer(ctx):
     r = ctx.rule("blank-buffer", "add_char buffers ' ' in cpd.spaces (unless output_trailspace) and flushes the buffer only in front of a "
                  "non-blank character; a line break discards it")
     a = db.fn("add_char", file=OUT)
+    r.names(a, "ch")
     flushes = [n for n in db.calls_in(a, "add_spaces")]
     r.require(len(flushes) >= 2, "add_char has %d add_spaces calls" % len(flushes))
     for n in flushes:
